@@ -1275,7 +1275,26 @@ func prunedTip(c cfg, pers string) bool {
 
 func (p P) Exec(line string) string {
 	t0 := time.Now()
-	out := p.exec(line)
+	if hung {
+		return "timeout"
+	}
+	// watchdog: a mutated tree may block (lock order, endless replay); the case then answers "timeout"
+	res := make(chan string, 1)
+	go func() {
+		defer func() {
+			if r := recover(); r != nil {
+				res <- "panic"
+			}
+		}()
+		res <- p.exec(line)
+	}()
+	var out string
+	select {
+	case out = <-res:
+	case <-time.After(240 * time.Second):
+		hung = true
+		out = "timeout"
+	}
 	if os.Getenv("VERIF_C04_ECHO") != "" {
 		fmt.Fprintf(os.Stderr, "%s\n  => %s (%v)\n", line, out, time.Since(t0))
 	}
@@ -1976,6 +1995,39 @@ func wlAttachDoubleSpend(r *core.Rand, pos int) *gw {
 	return g
 }
 
+// genRun runs a workload for the generator (it needs the real commit count).  The real
+// code may be broken on the tree under test: a panic or a hang must not take the generator
+// down — the workload is then emitted with a few fixed crash indices so that Exec
+// reproduces the failure on a concrete line.
+func genRun(g *core.Gen, key string) *run {
+	var r *run
+	done := make(chan struct{})
+	go func() {
+		defer func() {
+			recover()
+			close(done)
+		}()
+		rr, _, _, ok := getRun(strings.Fields("C04 img " + key + " 1"))
+		if ok && rr.l1.bad == "" {
+			r = rr
+		}
+	}()
+	select {
+	case <-done:
+	case <-time.After(150 * time.Second):
+		hung = true
+	}
+	if r == nil {
+		for _, k := range []int{1, 3, 4, 5, 7, 8, 9, 13, 18, 23} {
+			g.Case("broken-workload", true, fmt.Sprintf("C04 img %s %d", key, k))
+		}
+	}
+	return r
+}
+
+// hung is set when a call into the real code did not come back: later cases answer at once
+var hung bool
+
 func (P) Generate(g *core.Gen) {
 	// emit one workload: first-level images with the given stride, a few torn
 	// variants, and second-level images (crash, reopen, re-feed, crash again;
@@ -1986,9 +2038,9 @@ func (P) Generate(g *core.Gen) {
 			return // debugging aid: one class only
 		}
 		key := fmt.Sprintf("%d %s %s %s", cache, prune, w.blocksStr(), w.opsStr())
-		r, _, _, ok := getRun(strings.Fields("C04 img " + key + " 1"))
-		if !ok || r.l1.bad != "" {
-			panic("generator: workload does not run: " + key)
+		r := genRun(g, key)
+		if r == nil {
+			return
 		}
 		n := r.l1.n
 		off := 0
@@ -2038,9 +2090,9 @@ func (P) Generate(g *core.Gen) {
 			return
 		}
 		key := fmt.Sprintf("%s 0 %s %s", cache, w.blocksStr(), w.opsStr())
-		r, _, _, ok := getRun(strings.Fields("C04 img " + key + " 1"))
-		if !ok || r.l1.bad != "" {
-			panic("generator: workload does not run: " + key)
+		r := genRun(g, key)
+		if r == nil {
+			return
 		}
 		n := r.l1.n
 		// crash points with at least three unflushed blocks: the end of the run and
@@ -2071,9 +2123,9 @@ func (P) Generate(g *core.Gen) {
 			return
 		}
 		key := fmt.Sprintf("%s 0 %s %s", cache, w.blocksStr(), w.opsStr())
-		r, _, _, ok := getRun(strings.Fields("C04 img " + key + " 1"))
-		if !ok || r.l1.bad != "" {
-			panic("generator: workload does not run: " + key)
+		r := genRun(g, key)
+		if r == nil {
+			return
 		}
 		var ks []string
 		for i := 0; i < inst; i++ {
